@@ -25,6 +25,8 @@ type c10Op struct {
 	Budget  int         `json:"byte_budget,omitempty"` // encrypt-fault: the source runs dry after this many octets (fails inside a read)
 	// FailOnce: encrypt-fault with FailAt: only that read fails, the source works again afterwards (transient failure)
 	FailOnce bool `json:"fail_once,omitempty"`
+	// ErrKind selects the error value the failing source returns (probe.InjectedErrors)
+	ErrKind int `json:"error_kind,omitempty"`
 	// MaxRead: encrypt: the source hands out at most this many octets per Read (short reads without error)
 	MaxRead int `json:"max_read,omitempty"`
 	// Spare: encrypt: the plaintext slice has spare capacity behind it (as a sub-slice of a larger buffer has)
@@ -188,7 +190,7 @@ func c10Oracle(in c10In) probe.Outcome {
 			if op.Budget > 0 {
 				probe.WithEntropyBudget(op.Entropy, op.Budget, run)
 			} else {
-				probe.WithEntropyOpts(probe.EntropyOpts{Stream: op.Entropy, FailAt: op.FailAt, FailOnce: op.FailOnce}, run)
+				probe.WithEntropyOpts(probe.EntropyOpts{Stream: op.Entropy, FailAt: op.FailAt, FailOnce: op.FailOnce, ErrKind: op.ErrKind}, run)
 			}
 			if probe.IsPanic(eL) {
 				return probe.Fail("step %d: Encrypt panics when the random source fails: %v", i, eL)
@@ -289,7 +291,8 @@ func c10GenOp(t *rapid.T) c10Op {
 		if rapid.Bool().Draw(t, "bytebudget") {
 			return c10Op{Op: "encrypt-fault", Data: gen.Fill(t, "pt", n), Entropy: c10Entropy(t), Budget: rapid.IntRange(1, 40).Draw(t, "budget")}
 		}
-		return c10Op{Op: "encrypt-fault", Data: gen.Fill(t, "pt", n), Entropy: c10Entropy(t), FailAt: rapid.IntRange(1, 3).Draw(t, "failat"), FailOnce: rapid.Bool().Draw(t, "failonce")}
+		return c10Op{Op: "encrypt-fault", Data: gen.Fill(t, "pt", n), Entropy: c10Entropy(t), FailAt: rapid.IntRange(1, 3).Draw(t, "failat"), FailOnce: rapid.Bool().Draw(t, "failonce"),
+			ErrKind: rapid.IntRange(0, len(probe.InjectedErrors)-1).Draw(t, "errkind")}
 	}
 }
 
@@ -361,6 +364,9 @@ func TestC10(t *testing.T) {
 				for k := 1; k <= reads+1; k++ {
 					c10Table.Eval(c, c10In{Encr: e, Key: key, Ops: []c10Op{{Op: "encrypt-fault", Data: make([]byte, n), FailAt: k}}})
 					c10Table.Eval(c, c10In{Encr: e, Key: key, Ops: []c10Op{{Op: "encrypt-fault", Data: make([]byte, n), FailAt: k, FailOnce: true}}})
+					for kind := 1; kind < len(probe.InjectedErrors) && n <= 16; kind++ {
+						c10Table.Eval(c, c10In{Encr: e, Key: key, Ops: []c10Op{{Op: "encrypt-fault", Data: make([]byte, n), FailAt: k, FailOnce: kind%2 == 0, ErrKind: kind}}})
+					}
 				}
 				// ... and at every octet: the source runs dry after b octets, for every b below what the fault-free run consumed
 				consumed := 0
